@@ -70,8 +70,8 @@ def c05_extra(run, tier, bins):
 
 PROPS = {
     "C01": {
-        "uses_gen": ["constants", "config", "headers", "writer", "verify", "coding"],
-        "theorem_modules": ["FlacVerif.Theorems.C01", "FlacVerif.Theorems.C01Strict", "FlacVerif.Theorems.C01Wrap", "FlacVerif.Theorems.C09Gen"],
+        "uses_gen": ["constants", "config", "headers", "writer", "verify", "coding", "source", "decode", "lpc", "rice"],
+        "theorem_modules": ["FlacVerif.Theorems.C01", "FlacVerif.Theorems.C01Strict", "FlacVerif.Theorems.C01Wrap", "FlacVerif.Theorems.C09Gen", "FlacVerif.Theorems.C01Gen", "FlacVerif.Theorems.C13Gen"],
         "streams": {"quick": [("stream", ["--cases", 400, "--max-samples", 6000]), ("kernel", ["--cases", 150]), ("stream", ["--cases", 24, "--max-samples", 9000, "--focus", "burst"])],
                     "thorough": [("stream", ["--cases", 2000, "--max-samples", 24000]), ("kernel", ["--cases", 3000]), ("stream", ["--cases", 333, "--max-samples", 24000, "--focus", "burst"])],
                     "search": [("stream", ["--cases", 1500, "--max-samples", 12000])]},
@@ -88,8 +88,8 @@ PROPS = {
         "trusted_base": STREAM_TRUSTED, "assumptions": [],
     },
     "C03": {
-        "uses_gen": ["constants", "source"],
-        "theorem_modules": ["FlacVerif.Theorems.C03", "FlacVerif.Theorems.C01Strict", "FlacVerif.Theorems.C14Gen"],
+        "uses_gen": ["constants", "config", "headers", "writer", "verify", "source", "coding", "driver"],
+        "theorem_modules": ["FlacVerif.Theorems.C03", "FlacVerif.Theorems.C01Strict", "FlacVerif.Theorems.C14Gen", "FlacVerif.Theorems.C03Gen"],
         "streams": {"quick": [("stream", ["--cases", 400, "--max-samples", 6000])],
                     "thorough": [("stream", ["--cases", 2000, "--max-samples", 24000])],
                     "search": [("stream", ["--cases", 1500, "--max-samples", 12000])]},
@@ -97,7 +97,8 @@ PROPS = {
         "trusted_base": STREAM_TRUSTED, "assumptions": ["MD5 compression function trusted (executable, cross-checked)"],
     },
     "C04": {
-        "theorem_modules": ["FlacVerif.Theorems.C04", "FlacVerif.Theorems.C01Strict"],
+        "uses_gen": ["constants", "config", "headers", "writer", "verify", "source", "coding", "driver"],
+        "theorem_modules": ["FlacVerif.Theorems.C04", "FlacVerif.Theorems.C01Strict", "FlacVerif.Theorems.C03Gen"],
         "streams": {"quick": [("stream", ["--cases", 300, "--max-samples", 6000]), ("stream", ["--cases", 300, "--max-samples", 1200, "--focus", "residues"]), ("stream", ["--cases", 5, "--max-samples", 36000, "--focus", "manyframes"])],
                     "thorough": [("stream", ["--cases", 1333, "--max-samples", 24000]), ("stream", ["--cases", 3000, "--max-samples", 2000, "--focus", "residues"]), ("stream", ["--cases", 100, "--max-samples", 24000, "--focus", "manyframes"])],
                     "search": [("stream", ["--cases", 1500, "--max-samples", 2000, "--focus", "residues"])]},
@@ -106,8 +107,8 @@ PROPS = {
         "trusted_base": STREAM_TRUSTED, "assumptions": [],
     },
     "C09": {
-        "uses_gen": ["constants", "config", "headers", "writer", "verify", "coding"],
-        "theorem_modules": ["FlacVerif.Theorems.C09", "FlacVerif.Theorems.C09Stream", "FlacVerif.Theorems.C09Gen"],
+        "uses_gen": ["constants", "config", "headers", "writer", "verify", "coding", "source", "decode", "lpc", "rice"],
+        "theorem_modules": ["FlacVerif.Theorems.C09", "FlacVerif.Theorems.C09Stream", "FlacVerif.Theorems.C09Gen", "FlacVerif.Theorems.C01Gen", "FlacVerif.Theorems.C13Gen"],
         "streams": {"quick": [("stream", ["--cases", 250, "--max-samples", 6000]), ("stream", ["--cases", 150, "--max-samples", 9000, "--focus", "loud"]), ("stream", ["--cases", 52, "--max-samples", 9000, "--focus", "threshold"])],
                     "thorough": [("stream", ["--cases", 1333, "--max-samples", 24000]), ("stream", ["--cases", 1000, "--max-samples", 24000, "--focus", "loud"]), ("stream", ["--cases", 173, "--max-samples", 24000, "--focus", "threshold"])],
                     "search": [("stream", ["--cases", 1500, "--max-samples", 9000, "--focus", "loud"])]},
@@ -117,6 +118,8 @@ PROPS = {
         "assumptions": ["float-derived values (quantised LPC parameters, entropy estimates) are an oracle: the theorems hold for every oracle log"],
     },
     "C11": {
+        "uses_gen": ["sink"],
+        "theorem_modules": ["FlacVerif.Theorems.C11", "FlacVerif.Theorems.C11Gen"],
         "streams": {
             "quick": [("sink", ["--cases", 3000, "--exhaustive"])],
             "thorough": [("sink", ["--cases", 60000, "--exhaustive"])],
@@ -165,7 +168,7 @@ PROPS.update({
         "assumptions": ["the user sink implements the four required trait methods (provided methods expand as Model/Sink.lean `Op.expand`, proved bit-equivalent in C11_defaults)"],
     },
     "C13": {
-        "theorem_modules": ["FlacVerif.Theorems.C13", "FlacVerif.Theorems.C13Enc"],
+        "theorem_modules": ["FlacVerif.Theorems.C13", "FlacVerif.Theorems.C13Enc", "FlacVerif.Theorems.C09Gen", "FlacVerif.Theorems.C13Gen"], "uses_gen": ["constants", "config", "headers", "writer", "verify", "coding", "source", "decode", "rice"],
         "streams": {"quick": [("kernel", ["--cases", 400]), ("stream", ["--cases", 150, "--max-samples", 6000])],
                     "thorough": [("kernel", ["--cases", 6000]), ("stream", ["--cases", 1000, "--max-samples", 24000]), ("stream", ["--cases", 666, "--max-samples", 24000, "--focus", "loud"])],
                     "search": [("kernel", ["--cases", 3000])]},
@@ -198,7 +201,8 @@ PAR_RULE = ("par stream: corpus (the three confirmed failures of F8: read error,
 
 PROPS.update({
     "C05": {
-        "extra": c05_extra,
+        "extra": c05_extra, "uses_gen": ["constants", "par"],
+        "theorem_modules": ["FlacVerif.Theorems.C05", "FlacVerif.Theorems.C06Gen"],
         "streams": {"quick": [("par", ["--cases", 150])], "thorough": [("par", ["--cases", 6000])], "search": [("par", ["--cases", 1500])]},
         "diff_prefix": ["c05."], "oracle_fields": ["o_c05"], "rule": PAR_RULE,
         "trusted_base": ["Model/Par.lean: hand model of the thread protocol of par.rs (atomic steps = channel operations and marked scheduling points), tied to the code by replaying every logged run",
@@ -208,6 +212,8 @@ PROPS.update({
         "assumptions": ["source contract: read_samples fills the buffer with the samples it reports; a non-final read delivers a non-empty block (an empty data block is the hasher's stop token: C05_empty_block_hash_mismatch shows what a contract-violating source causes)"],
     },
     "C06": {
+        "uses_gen": ["constants", "par"],
+        "theorem_modules": ["FlacVerif.Theorems.C06", "FlacVerif.Theorems.C06Gen"],
         "streams": {"quick": [("par", ["--cases", 150])], "thorough": [("par", ["--cases", 6000])], "search": [("par", ["--cases", 1500])]},
         "diff_prefix": ["c06."], "oracle_fields": ["o_c06"], "rule": PAR_RULE,
         "trusted_base": ["Model/Par.lean (as C05)", "that a model thread in state `exited` corresponds to an OS thread that is gone is observed (/proc/self/task), not proved",
@@ -327,7 +333,8 @@ def c20_extra(run, tier, bins):
 PROPS.update({
     "C20": {
         "level": "translation_validation",
-        "theorem_modules": ["FlacVerif.Theorems.C01", "FlacVerif.Theorems.C09"],
+        "uses_gen": ["constants", "config", "headers", "writer", "verify", "source", "coding", "driver"],
+        "theorem_modules": ["FlacVerif.Theorems.C01", "FlacVerif.Theorems.C09", "FlacVerif.Theorems.C03Gen"],
         "streams": {"quick": [], "thorough": [], "search": []},
         "extra": c20_extra,
         "diff_prefix": ["c01.", "c02.", "c03.", "c04.", "c09.", "c10."], "oracle_fields": ["o_c01", "o_c09", "o_c10"], "class_of": stream_class,
@@ -409,8 +416,8 @@ CONFIG_RULE = ("config stream: corpus (F2: partitions 0 / 1000, max_order 7; F13
 
 PROPS.update({
     "C07": {
-        "driver": "fvconfig", "uses_gen": ["constants", "config", "headers", "writer", "verify", "coding"], "extra": c07_extra,
-        "theorem_modules": ["FlacVerif.Theorems.C07", "FlacVerif.Theorems.C07Total", "FlacVerif.Theorems.C09Gen"],
+        "driver": "fvconfig", "uses_gen": ["constants", "config", "headers", "writer", "verify", "coding", "source", "decode", "lpc", "rice"], "extra": c07_extra,
+        "theorem_modules": ["FlacVerif.Theorems.C07", "FlacVerif.Theorems.C07Total", "FlacVerif.Theorems.C09Gen", "FlacVerif.Theorems.C01Gen", "FlacVerif.Theorems.C13Gen"],
         "streams": {"quick": [("config", ["--cases", 150])], "thorough": [("config", ["--cases", 800, "--thorough"])], "search": [("config", ["--cases", 800, "--thorough"])]},
         "profiles": {"quick": ["release", "dev"], "thorough": ["release", "dev"]},
         "diff_prefix": ["c07."], "oracle_fields": ["o_c07"], "rule": CONFIG_RULE,
@@ -437,7 +444,8 @@ HISTORY_RULE = ("history stream: corpus (F7: Tukey alpha 0.0, 1e-6, 0.4, 0.40001
 
 PROPS.update({
     "C10": {
-        "extra": c10_extra,
+        "extra": c10_extra, "uses_gen": ["constants", "source", "decode", "lpc", "rice"],
+        "theorem_modules": ["FlacVerif.Theorems.C10", "FlacVerif.Theorems.C01Gen", "FlacVerif.Theorems.C13Gen"],
         "streams": {"quick": [("history", ["--cases", 60]), ("kernel", ["--cases", 120])],
                     "thorough": [("history", ["--cases", 3000]), ("kernel", ["--cases", 1500])],
                     "search": [("history", ["--cases", 600])]},
